@@ -474,6 +474,48 @@ func runR127(c *Ctx) {
 	if n == 0 {
 		c.undecided("internal/fastcsv|functions", "-", "no function found")
 	}
+	// (b) the byte the scanner splits on is the configured one: every value stored into a byte-typed field of a
+	// scanner struct (the delimiter) is a parameter or a field of the configuration, as it is - no default is
+	// substituted for a particular value, because every byte, 0 included, is a legal delimiter
+	nb := 0
+	for _, fn := range p.FuncsIn("internal/fastcsv") {
+		eachInstr(fn, func(in ssa.Instruction) {
+			st, ok := in.(*ssa.Store)
+			if !ok {
+				return
+			}
+			fa, ok := st.Addr.(*ssa.FieldAddr)
+			if !ok {
+				return
+			}
+			stt, ok := deref(fa.X.Type()).Underlying().(*types.Struct)
+			if !ok {
+				return
+			}
+			if bt, ok := stt.Field(fa.Field).Type().Underlying().(*types.Basic); !ok || bt.Kind() != types.Byte && bt.Kind() != types.Uint8 {
+				return
+			}
+			nb++
+			key := fname(fn) + "|delimiter provenance"
+			v := stripConv(st.Val)
+			switch t := v.(type) {
+			case *ssa.Parameter:
+				c.ok(key, p.instrPos(st), "the configured byte, as it is")
+				return
+			case *ssa.Phi, *ssa.Const:
+				c.bad(key, p.instrPos(st), fmt.Sprintf("the delimiter stored in the scanner is %s, not simply the configured byte: a default substituted for one particular value (0 taken for `unset`) makes that byte unusable as a delimiter although every single byte is legal", describe(t)))
+				return
+			}
+			if fld, _ := fieldOf(v); fld != nil {
+				c.ok(key, p.instrPos(st), "the configured byte, read from the configuration")
+				return
+			}
+			c.bad(key, p.instrPos(st), "the delimiter stored in the scanner is "+describe(v)+", not the configured byte")
+		})
+	}
+	if nb == 0 {
+		c.undecided("internal/fastcsv|delimiter field", "-", "no store into a byte-typed scanner field found")
+	}
 }
 
 // ---- R118 clause (b): allocation sizes supplied by the caller ----
